@@ -111,7 +111,12 @@ func TestVerifC09(t *testing.T) {
 			return segs
 		}
 		for i, op := range prog {
-			if f := strings.Fields(op); f[0] == "append" && strings.HasPrefix(impl[i], "ok [") {
+			f := strings.Fields(op)
+			isApp := f[0] == "append"
+			if f[0] == "appendroll" {
+				isApp, f = true, f[1:] // `appendroll <ttl> <epoch> <ts> msgs…`: answers like the append when the clean ran inside its roll
+			}
+			if isApp && strings.HasPrefix(impl[i], "ok [") {
 				ts, _ := strconv.ParseInt(f[2], 10, 64)
 				lst := impl[i][4:strings.Index(impl[i], "]")]
 				for k, o := range strings.Split(lst, ",") {
@@ -297,6 +302,20 @@ func TestVerifC09(t *testing.T) {
 		}
 		if rnd.Intn(4) == 0 {
 			prog = append(prog, midClean(), "read 0 u")
+		}
+		if rnd.Intn(3) == 0 {
+			// the other interleaving of cleaner and writer: a complete clean runs while an append is rolling the
+			// active segment (after the roll started, before the new segment is published)
+			ts += int64(1 + rnd.Intn(50))
+			b := 1 + rnd.Intn(2)
+			toks := make([]string, b)
+			for j := range toks {
+				toks[j] = fmt.Sprintf("61/*%d.5/_/-1", rnd.Intn(4)*100)
+				stamps = append(stamps, ts+int64(j))
+			}
+			res.Dist("clean-inside-roll")
+			prog = append(prog, fmt.Sprintf("appendroll %d 1 %d %s", pickTTL(), ts, strings.Join(toks, " ")), "read 0 u")
+			ts += int64(b)
 		}
 		if rnd.Intn(3) == 0 {
 			// the server restarts before the cleaner runs: what a segment knows about itself (first /
